@@ -13,11 +13,13 @@ def pick(name, pred):
     return c19.execute({"id": "good-" + name, "cfg": c, "seed": 7})
 cp = pick("cp", lambda c: c["kind"] == "reg" and c["model"] == "cp" and c["xs"] == [3, 2] and c["ys"] == [2] and c["rank"] == 1 and c["opt"] == "tight" and c["reg"] == 100 and c["ux"] == 0 and c["ff"] == "f64")
 tk = pick("tucker", lambda c: c["kind"] == "reg" and c["model"] == "tucker" and c["xs"] == [2, 2, 2] and c["rank"] == 1 and c["opt"] == "loose" and c["reg"] == 100 and c["ux"] == 0 and c["ff"] == "f64")
-pl = pick("pls", lambda c: c["kind"] == "pls" and c["xs"] == [3, 2] and c["ny"] == 2 and c["nc"] == 2 and c["opt"] == "tol2")
+pl = pick("pls", lambda c: c["kind"] == "pls" and c["xs"] == [3, 2] and c["ny"] == 2 and c["nc"] == 2 and c["opt"] == "tol2" and c["lay"] == "C" and c["dat"] == "generic")
 pu = pick("pls-units", lambda c: c["kind"] == "pls" and c["xs"] == [2, 2, 2, 2] and c["ux"] == 80 and c["nc"] == 3 and c["ny"] == 2)
 cu = pick("cp-units", lambda c: c["kind"] == "reg" and c["model"] == "cp" and c["xs"] == [3, 2] and c["ys"] == [2] and c["ux"] == -20 and c["rank"] == 1)
 cf = pick("cp-x32", lambda c: c["kind"] == "reg" and c["model"] == "cp" and c["xs"] == [3, 2] and c["ys"] == [2] and c["ff"] == "x32" and c["rank"] == 1)
-good = [cp, tk, pl, pu, cu, cf]
+pf = pick("pls-fortran", lambda c: c["kind"] == "pls" and c["xs"] == [3, 2, 2] and c["lay"] == "F" and c["ny"] == 2)
+pc = pick("pls-contrast", lambda c: c["kind"] == "pls" and c["xs"] == [3, 2, 2] and c["dat"] == "contrast" and c["ny"] == 2 and c["nc"] == 2)
+good = [cp, tk, pl, pu, cu, cf, pf, pc]
 evs, want = list(good), {}
 def mut(base, name, clause, f):
     e = copy.deepcopy(base); e["id"] = name; f(e); evs.append(e); want[name] = clause
@@ -74,6 +76,8 @@ mut(cu, "units-predict", "Predict", bump(["pred"], 0, 40))
 mut(cf, "fitform-precision", "WeightIsDensePrecision", lambda e: e["prec"].__setitem__("wd", 270000000))
 mut(cf, "fitform-vec-precision", "VecWPrecision", lambda e: e["prec"].__setitem__("vd", 65))
 mut(pl, "pls-fit-twice", "FitTwiceSame", bump(["extra", "again", "scores"], 0, 7))
+mut(pf, "layout-transform", "TransformIsScores", bump(["base", "transform"], 1, 120000))
+mut(pc, "contrast-zero-loading", "UnitLoadings", lambda e: e["shiftx"]["loads"][1].__setitem__("data", [0] * len(e["shiftx"]["loads"][1]["data"])))
 def permswap(e): e["perm"][0], e["perm"][1] = e["perm"][1], e["perm"][0]
 mut(pl, "pls-perm", "PermScores", permswap)
 mut(pl, "pls-nan", "Finite", lambda e: e["base"]["scores"]["data"].__setitem__(0, 2000000001))
